@@ -535,8 +535,7 @@ def c_in_build(c, w, s, shape, ew, es):
         else:
             t = ref_bin("Eq", X, T(en[0]), sg, W)
         want = want | t
-    if not ents:
-        want = z3.BitVecVal(1, 1)      # as built: an empty list imposes nothing
+    # (no entries: the empty disjunction - nothing is a member of an empty set)
     c.check("x in rangelist == disjunction of (lo <= x and x <= hi) / (x == v) under R-EXPR comparison rules",
             And(n.width == 1, n.term == want))
     c.check("width() == 1 and is_signed() is False", e.width() == 1 and e.is_signed() is False)
